@@ -408,6 +408,19 @@ def iterReplace (it : Iter) (a : ArraySized) (e : Buf Nat) (m : Mem) : Stat × O
 /-- `cc_array_sized_iter_index` -/
 def iterIndex (it : Iter) : Nat := wdec it.index
 
+/-- the loop of `CC_ARRAY_SIZED_FOREACH`: `while (iter_next(&it, &val) != CC_ITER_END) body`,
+collecting the elements handed to the body (`f` bounds the number of rounds) -/
+def foreachGo (a : ArraySized) : Nat → Iter → Mem → List (List Nat) → List (List Nat) × Mem
+  | 0, _, m, acc => (acc, m)
+  | f + 1, it, m, acc =>
+    let r := iterNext it a m
+    match r.2.1 with
+    | some c => foreachGo a f r.2.2.1 r.2.2.2 (acc ++ [c])
+    | none => (acc, r.2.2.2)
+
+/-- `CC_ARRAY_SIZED_FOREACH` with a body that does not touch the array -/
+def foreach (a : ArraySized) (m : Mem) : List (List Nat) × Mem := foreachGo a (a.size + 1) {} m []
+
 /-- `cc_array_sized_zip_iter_next` -/
 def zipNext (it : Iter) (a1 a2 : ArraySized) (m : Mem) : Stat × Option (List Nat × List Nat) × Iter × Mem :=
   if it.index ≥ a1.size || it.index ≥ a2.size then (.iterEnd, none, it, m) else
